@@ -23,7 +23,7 @@ pub struct Built {
 // The catalogue product. `stride` thins the wrapper dimension (quick tier).
 pub fn catalogue(full: bool) -> Vec<Built> {
     let mut out = vec![];
-    let depths_full: Vec<(usize, usize)> = vec![(0, 0), (1, 0), (1, 1), (1, 2), (1, 3), (1, 4), (2, 0), (2, 2), (3, 1), (5, 0)];
+    let depths_full: Vec<(usize, usize)> = vec![(0, 0), (1, 0), (1, 1), (1, 2), (1, 3), (1, 4), (2, 0), (2, 2), (3, 1), (5, 0), (9, 2), (12, 0)];
     let mut rot = 0usize;
     let mut push = |body: Vec<Stmt>, label: String, in_fn_only: bool, out: &mut Vec<Built>, rot: &mut usize| {
         let choices: Vec<(usize, usize)> = if full {
@@ -31,7 +31,7 @@ pub fn catalogue(full: bool) -> Vec<Built> {
         } else {
             // Depth 0 always, plus two rotating wrappers.
             *rot += 1;
-            vec![(0, 0), depths_full[1 + *rot % 9], depths_full[1 + (*rot * 7 + 3) % 9]]
+            vec![(0, 0), depths_full[1 + *rot % 11], depths_full[1 + (*rot * 7 + 3) % 11]]
         };
         for (depth, kind) in choices {
             if in_fn_only && depth == 0 {
@@ -75,7 +75,7 @@ pub fn catalogue(full: bool) -> Vec<Built> {
         if !full && k % 4 != 0 {
             continue;
         }
-        for levels in [2i64, 4] {
+        for levels in [2i64, 4, 15] {
             let mut stmts = prelude();
             stmts.push(fn_decl("rec", vec![var("lv")], false, vec![
                 sdmodel::ast::print(var("lv")),
@@ -134,6 +134,31 @@ fn front_errors() -> Vec<(Case, bool)> {
     }).collect()
 }
 
+// A `print` whose rendering fails after tens or hundreds of kilobytes (a
+// string that is not valid UTF-8 late in a big container) completes nothing:
+// stdout holds the earlier prints only. And big prints that do complete are
+// whole before a later failure.
+fn big_output_cases(ctx: &Ctx) -> Vec<(Case, bool)> {
+    let mut out = vec![];
+    let render = |n: i64| -> String { let mut s = String::from("[\n"); for k in 0..n { s.push_str(&format!("    {k},\n")); } s.push_str("]\n"); s };
+    for n in [10i64, 3000, 8000, 20000, 70000] {
+        let forms: Vec<(String, u32, bool)> = vec![
+            (format!("print(\"report:\")\nids := 0 .. {n}\nowner := \"émile\"\no := {{\"ids\": ids, \"initial\": owner[0]}}\nprint(o)\nprint(\"after\")\n"), 5, false),
+            (format!("print(\"report:\")\nids := 0 .. {n}\nowner := \"émile\"\nids += [owner[0]]\nprint(ids)\nprint(\"after\")\n"), 5, false),
+            (format!("print(\"report:\")\nids := 0 .. {n}\nowner := \"日本\"\nfn show(v) {{\n    print(v)\n}}\nshow([ids, [ids, {{\"z\": owner[1:2]}}]])\nprint(\"after\")\n"), 7, false),
+            (format!("ids := 0 .. {n}\nprint(ids)\nprint(\"between\")\nx := ids[{n}]\nprint(\"after\")\n"), 4, true),
+        ];
+        for (src, max_line, whole) in forms {
+            let want = if whole { format!("{}between\n", render(n)) } else { "report:\n".to_string() };
+            let mut e = Expect::err(want.into_bytes());
+            e.diag = vec![DiagPred::WellFormed{max_line}];
+            ctx.label("failure after / inside a large print");
+            out.push((Case{property: "C17".into(), kind: "big_output".into(), srcs: vec![src.into_bytes()], pred: Pred::Expect(e), note: format!("{n} elements; {}", if whole { "complete print, then a failure" } else { "the print itself fails late" })}, true));
+        }
+    }
+    out
+}
+
 pub fn run(ctx: &Ctx) {
     ctx.set_rule("failing programs by construction: 46 failing expressions x 42 syntactic slots (+ return slots) and 37 failing statements x 4 positions, x call wrappers (named, anonymous, method, callback, builtin argument) at depth 0..5, jumps outside their construct, every lexical / parse error class; plus random failing programs from the tape decoder (hostile profile) in random layouts; oracle: stdout = the reference's output up to the failure, exit 103, stderr line 1 `<path>:<l>:<c>: [in '<innermost function>': ]<message>` with l within the script, no internal identifier, Stacktrace with exactly one line per active call at the position of that call, innermost first, ending at <root>; successful programs: empty stderr, exit 0. Non-trivial = raised at call depth >= 1 or at a position other than a top-level expression statement; distinct = distinct source texts");
     ctx.replay_corpus(None);
@@ -149,14 +174,18 @@ pub fn run(ctx: &Ctx) {
     ctx.mark_exhaustive("fault catalogue x slot x wrapper product (quick tier: depth 0 plus two rotating wrappers per entry)");
     ctx.judge_all(cases, Via::Cli, None);
     ctx.judge_all(front_errors(), Via::Cli, None);
+    ctx.judge_all(big_output_cases(ctx), Via::Cli, None);
     // Random programs, hostile profile: most of them fail somewhere.
     let mut cfg = gen::GenCfg::balanced();
     cfg.sloppy = 6;
+    let mut big = gen::GenCfg::big();
+    big.sloppy = 3;
     let n = ctx.n(25_000, 1_000_000);
     let via = if ctx.tier == Tier::Quick { Via::Cli } else { Via::Fast };
     ctx.proptest_tapes("random_failing", n, 700, via, None, |t| {
         let density = if t.chance(1, 2) { 12 } else { 0 };
-        let (case, rr, _, _) = crate::props::c01::build_case("C17", "random", t, &cfg, density, ctx, DiagLevel::Shape)?;
+        let use_big = t.chance(1, 5);
+        let (case, rr, _, _) = crate::props::c01::build_case("C17", "random", t, if use_big { &big } else { &cfg }, density, ctx, DiagLevel::Shape)?;
         label_outcome(ctx, &rr);
         let nt = rr.err().map(|e| !e.stack.is_empty()).unwrap_or(false);
         if let Some(e) = rr.err() {
